@@ -17,7 +17,6 @@ import (
 	"bufio"
 	"bytes"
 	"context"
-	"encoding/hex"
 	"encoding/json"
 	"fmt"
 	"io"
@@ -469,15 +468,9 @@ func runS3(args []string) int {
 		c.ID, c.Seed = i, seed
 	}
 	// cases use distinct keys: run several at a time
-	type out struct {
-		i int
-		f []OracleFailure
-	}
 	results := make([][]OracleFailure, len(cases))
 	sem := make(chan struct{}, 6)
 	var wg sync.WaitGroup
-	var tmu sync.Mutex
-	_ = tmu
 	for i, c := range cases {
 		wg.Add(1)
 		sem <- struct{}{}
@@ -491,7 +484,6 @@ func runS3(args []string) int {
 	for _, f := range results {
 		fails = append(fails, f...)
 	}
-	_ = hex.EncodeToString
 	Finish(o.Out, st, fails)
 	return 0
 }
